@@ -233,6 +233,9 @@ def gen_case(rng, sites=None, exc_i=None):
     cfg["t4"]["snapshot_every_n_turns"] = 1
     cfg["t1"]["cache"] = {"enabled": False}
     cfg["t2"]["cache"] = {"enabled": False}
+    t3_deny = rng.random() < 0.2  # stage switches of the base setup (same in the faulted and the baseline run)
+    if rng.random() < 0.15:
+        cfg["t4"]["enabled"] = False
     if sites is None:
         # combinations take at most one site per group whose off/idle baselines would contradict each other
 # (the boot legs keep the hybrid reranker healthy in both runs, so hybrid-rerank shares their group)
@@ -244,7 +247,20 @@ def gen_case(rng, sites=None, exc_i=None):
         t["plan"] = {"ops": [{"kind": "Speak"}, {"kind": "EditGraph"}], "deltas": [["node", f"n:{rng.choice('abcd')}", "weight", rng.choice([0.1, -0.2, 0.3]), 1] for _ in range(rng.randint(1, 3))],
                      "reflection": True}
     return {"world": world, "cfg": cfg, "turns": turns, "sites": list(sites), "exc": exc_i if exc_i is not None else rng.randrange(len(EXCS)),
-            "garbage": rng.choice(GARBAGE), "seed": rng.randint(0, 10 ** 9)}
+            "garbage": rng.choice(GARBAGE), "seed": rng.randint(0, 10 ** 9), "t3_deny": t3_deny}
+
+
+@contextlib.contextmanager
+def _env_var(k, v):
+    old = os.environ.get(k)
+    os.environ[k] = v
+    try:
+        yield
+    finally:
+        if old is None:
+            os.environ.pop(k, None)
+        else:
+            os.environ[k] = old
 
 
 def run(case, faulted, sess):
@@ -286,6 +302,8 @@ def run(case, faulted, sess):
                 if "store-all" in case["sites"]:
                     # idle store: every call is a no-op reporting zero edits
                     env.state["store"].apply_deltas = (lambda real: (lambda gid, deltas: real(gid, deltas) if (list(deltas) and isinstance(list(deltas)[0], dict)) else {"edits": 0, "clamps": 0}))(env.state["store"].apply_deltas)
+            if case.get("t3_deny"):
+                stack.enter_context(_env_var("CLEMATIS_T3_DENY", "1"))  # the documented kill switch of the planning stage
             for t in case["turns"]:
                 if faulted and hasattr(env.state.get("store"), "_c20_reset"):
                     env.state["store"]._c20_reset()
